@@ -382,7 +382,11 @@ def run(ctx):
             ctx.hit("event:two terms built from one dictionary of variables")
         # variable names in other alphabets (a formula is text: identifiers are whatever the engine's variables are called)
         for i, rnd in ctx.cases("names", ctx.scale(40, 1000)):
-            name, own = rnd.choice([("θ", "κ"), ("Δe", "ω_1"), ("ángulo", "k"), ("température", "gain2"), ("in_0", "Ω")])
+            # (... and names that differ only in case from the functions and constants of the formula language: a variable is whatever
+            # the engine and the term call it, `PI` is not `pi`)
+            name, own = rnd.choice([("θ", "κ"), ("Δe", "ω_1"), ("ángulo", "k"), ("température", "gain2"), ("in_0", "Ω"), ("PI", "Exp"), ("Floor", "Max"), ("Sin", "E"), ("ABS", "Pi"), ("Min", "SQRT"), ("Round", "Tan")])
+            if name[0].isascii():
+                ctx.hit("event:variable names that differ only in case from functions of the formula language")
             engine = fl.Engine("e", input_variables=[fl.InputVariable(name)], output_variables=[fl.OutputVariable("out0")])
             a, b = rnd.choice([0.5, 2.0, -1.25]), rnd.choice([0.25, 3.0])
             engine.input_variables[0].value = a
@@ -398,8 +402,42 @@ def run(ctx):
                     ctx.violation("value differs from the formula read with the documented operator table", {"formula": text, "variables": {name: a, own: b}}, want, got)
             except Exception as ex:
                 ctx.violation(f"a well-formed formula is rejected ({type(ex).__name__})", {"formula": text}, "loaded", repr(ex)[:200])
+        # operators and functions a user registers in the function factory - after formulas have already been read with that
+        # factory: the formula language is what the factory holds when the formula is read
+        for i, rnd in ctx.cases("registered later", ctx.scale(30, 600)):
+            manager = fl.FactoryManager()
+            with fl.settings.context(factory_manager=manager):
+                engine = fl.Engine("e", input_variables=[fl.InputVariable("in0")], output_variables=[fl.OutputVariable("out0")])
+                a = rnd.choice([0.5, 2.0, 3.25, 7.0])
+                engine.input_variables[0].value = a
+                if i % 3:
+                    try:
+                        fl.Function.create("warm", "in0 * 2.0 + x", engine).membership(1.0)
+                        fl.Rule.create("if in0 is any then out0 is any") if False else None
+                    except Exception:
+                        pass
+                El = fl.Function.Element
+                f = manager.function
+                f.objects["//"] = El("//", "floor division", El.Type.Operator, np.floor_divide, arity=2, precedence=f.objects["*"].precedence, associativity=-1)
+                f.objects["<"] = El("<", "less than", El.Type.Operator, lambda p, q: np.where(np.asarray(p) < np.asarray(q), 1.0, 0.0), arity=2, precedence=60, associativity=-1)
+                f.objects["double"] = El("double", "twice", El.Type.Function, lambda p: 2.0 * p, arity=1)
+                x = rnd.choice([0.25, 1.0, 2.5])
+                cases = {
+                    "7.0//2.0+x": 7.0 // 2.0 + x, "in0 // 2.0 * x": (a // 2.0) * x, "double(x)+1.0": 2.0 * x + 1.0, "double ( in0 ) // 2.0": (2.0 * a) // 2.0,
+                    "x+1.0<2.0*x": 1.0 if x + 1.0 < 2.0 * x else 0.0, "(in0<x)*4.0": 4.0 if a < x else 0.0,
+                }  # fmt: skip
+                for text, want in cases.items():
+                    ctx.evaluated()
+                    try:
+                        got = float(np.asarray(fl.Function.create("g", text, engine).membership(x)))
+                        ctx.hit("event:formula over operators registered after other formulas were read")
+                        if not close(got, want):
+                            ctx.violation("value differs from the formula read with the operator table of the factory", {"formula": text, "in0": a, "x": x}, want, got)
+                    except Exception as ex:
+                        ctx.violation(f"a well-formed formula over registered operators is rejected ({type(ex).__name__})", {"formula": text}, "loaded", repr(ex)[:200])
         probe.report(ctx)
         reach.report(ctx)
+    ctx.require("event:formula over operators registered after other formulas were read", "event:variable names that differ only in case from functions of the formula language")
     ctx.require("hook:Function.load", "hook:Function.membership", "hook:Function.evaluate", "compare:membership:scalar (generator tree)", "compare:membership:array (generator tree)", "compare:evaluate:scalar (generator tree)", "compare:rpn of the loaded tree's postfix", "ill-formed:missing operand", "ill-formed:wrong arity", "ill-formed:unbalanced parenthesis", "name clash refused", "event:term variables changed between calls", "event:formula reloaded into the same term", "route:4", "route:5", "route:6", "event:engine variable replaced after an evaluation", "event:two terms built from one dictionary of variables", "event:formula over names in other alphabets evaluated")
     if ctx.nshards == 1:
         for k in list(F.OPERATORS) + list(F.FUNCTIONS):
